@@ -15,4 +15,4 @@ def stage(ctx):
 
 def run(ctx):
     return run_solver_property(ctx, "C02", codes=("C02", "C01"), focus_mix=("single", "mixed"), n_quick=24, extra_stage=stage,
-                               extra_theorem_files=("Properties_C13.v", "Properties_C08_interior.v"))
+                               extra_theorem_files=("Properties_C02_loop.v", "Properties_C13.v", "Properties_C08_interior.v"))
